@@ -316,3 +316,53 @@ func TestVerifRace(t *testing.T) {
 	fmt.Printf("race-workload done profile=%s strategy=%s requests=%d admin=%d reads=%d ok=%d limited=%d s500=%d s502=%d s503=%d other=%d\n", os.Getenv("VERIF_RACE_PROFILE"), strategy, nReq.Load(), nAdmin.Load(), nRead.Load(),
 		hist[0].Load(), hist[1].Load(), hist[2].Load(), hist[3].Load(), hist[4].Load(), hist[5].Load())
 }
+
+// TestVerifGauge: waves of requests that finish together, then quiescence: the in-flight gauge
+// of every backend and the gauge published to the metrics must both read zero (C13). A search
+// over schedules for the "publish in the wrong order" interleaving.
+func TestVerifGauge(t *testing.T) {
+	logging.Init(config.LoggingConfig{Level: "fatal", Format: "json"})
+	rounds, _ := strconv.Atoi(os.Getenv("VERIF_GAUGE_ROUNDS"))
+	if rounds <= 0 {
+		rounds = 1500
+	}
+	be := httptest.NewServer(http.HandlerFunc(func(w http.ResponseWriter, r *http.Request) { w.WriteHeader(204) }))
+	defer be.Close()
+	cfg := &config.Config{}
+	cfg.LoadBalancer.Strategy = "round_robin"
+	cfg.Backends = []config.BackendConfig{{Name: "g0", Address: be.URL}}
+	lb, err := loadbalancer.NewLoadBalancer(cfg)
+	if err != nil {
+		t.Fatal(err)
+	}
+	defer lb.Stop()
+	var h http.Handler = lb // the balancer itself: the middleware above only dilutes the contention
+	for round := 0; round < rounds; round++ {
+		var wg sync.WaitGroup
+		for g := 0; g < 48; g++ {
+			wg.Add(1)
+			go func() {
+				defer wg.Done()
+				for i := 0; i < 3; i++ {
+					h.ServeHTTP(httptest.NewRecorder(), httptest.NewRequest("GET", "/", nil))
+				}
+			}()
+		}
+		wg.Wait()
+		for _, b := range lb.ListBackends() {
+			if b.ActiveConnections != 0 {
+				t.Fatalf("VERIF-GAUGE round %d: backend %s gauge %d while idle", round, b.Name, b.ActiveConnections)
+			}
+		}
+		m := lb.GetMetricsCollector().GetMetrics()
+		for name, bm := range m.BackendMetrics {
+			if bm.ActiveConnections != 0 {
+				t.Fatalf("VERIF-GAUGE round %d: metrics report active_connections=%d for %s while nothing is in flight", round, bm.ActiveConnections, name)
+			}
+		}
+		if m.TotalRequests != m.SuccessfulRequests+m.FailedRequests+m.RateLimitedRequests {
+			t.Fatalf("VERIF-GAUGE round %d: total %d != ok %d + failed %d + limited %d while idle", round, m.TotalRequests, m.SuccessfulRequests, m.FailedRequests, m.RateLimitedRequests)
+		}
+	}
+	fmt.Printf("gauge-workload done rounds=%d\n", rounds)
+}
